@@ -147,7 +147,7 @@ func (e *Encoder) WriteData(data interface{}) (int, error) {
 	case reflect.Struct:
 		return e.writeObject(source)
 	}
-	return 0, newCodecError("WriteData", "unsupported object:%v, kind:%v, type:%v", data, v.Kind(), v.Kind())
+	return 0, newCodecError("WriteData", "unsupported object of kind %v, type %T", v.Kind(), data)
 }
 
 func (e *Encoder) writeString(value string) (int, error) {
